@@ -43,7 +43,9 @@ def build_demo(mut, exe):
     return True, ''
 
 def run_demo(mut, exe):
-    if os.path.exists(os.path.join(mut, 'demo.cc')): r = sh([exe], cwd=mut, timeout=600)
+    if os.path.exists(os.path.join(mut, 'demo.cc')):
+        # memory-safety seeds whose effect stays inside malloc slack in a plain build: the demo is confirmed under valgrind memcheck
+        r = sh((['valgrind', '-q', '--error-exitcode=99'] if os.path.exists(os.path.join(mut, 'USE_VALGRIND')) else []) + [exe], cwd=mut, timeout=1800)
     else: r = sh(['sh', os.path.join(mut, 'demo.sh')], cwd=mut, timeout=600, env=dict(os.environ, VATA=WT + '/_b/cli/vata', WT=WT))
     return r.returncode, r.stdout[-1500:]
 
